@@ -12,7 +12,7 @@ Record NsdP (ws : N) (san : bool) (p : NewStreamData) : Prop := mkNsdP {
   np_len : lenN (bytes_so_far p) = 5;
   np_bytes : bytes_ok (bytes_so_far p);
   np_read : num_bytes_read p <= 5;
-  np_written : forall k, num_bytes_written p = Some k -> k < num_bytes_read p /\ ws <> 0 /\ san = true
+  np_written : forall k, num_bytes_written p = Some k -> k < num_bytes_read p /\ ws <> 0
 }.
 
 Record InvP (s : BroCatli) : Prop := mkInvP {
@@ -57,8 +57,8 @@ Proof.
   - intros [H1 H2 H3 H4]. apply forallb_bytes in H2.
     rewrite (proj2 (N.eqb_eq _ _) H1), H2, (proj2 (N.leb_le _ _) H3). cbn [andb].
     destruct (num_bytes_written p) as [k|]; [|reflexivity].
-    destruct (H4 k eq_refl) as (Ha & Hb & Hc).
-    rewrite (proj2 (N.ltb_lt _ _) Ha), (proj2 (N.eqb_neq _ _) Hb), Hc. reflexivity.
+    destruct (H4 k eq_refl) as (Ha & Hb).
+    rewrite (proj2 (N.ltb_lt _ _) Ha), (proj2 (N.eqb_neq _ _) Hb). reflexivity.
 Qed.
 
 Lemma Inv_P s : Inv s <-> InvP s.
@@ -231,14 +231,12 @@ Qed.
 Ltac fin :=
   first [ assumption | reflexivity | lia | apply w8_lt | discriminate | congruence
         | (intros; first [assumption | lia | discriminate | congruence]) ].
+Ltac conj := repeat match goal with |- _ /\ _ => split end.
 Ltac post8 := split; [|split; [|split; [|split; [|split; [|split; [|split]]]]]].
 Ltac pend_goal HP := let q := fresh "q" in let Hq := fresh "Hq" in intros q Hq; injection Hq as <-; exact HP.
 
-Lemma NsdP_sanitize ws san p : NsdP ws san p -> NsdP ws true p.
-Proof.
-  intros [P1 P2 P3 P4]. split; try assumption.
-  intros k Hk. destruct (P4 k Hk) as (A & B & _). repeat split; assumption.
-Qed.
+Lemma NsdP_sanitize ws san san' p : NsdP ws san p -> NsdP ws san' p.
+Proof. intros [P1 P2 P3 P4]. split; assumption. Qed.
 
 Lemma flush_ok s out off : InvP s -> new_stream_pending s <> None -> bytes_ok out -> off <= lenN out ->
   exists f, flush_previous_stream s out off = Val f /\
@@ -251,7 +249,7 @@ Proof.
   intros [H1 H2 H3 H4 H5 H6 H7 H8 H9] Hpend Hout Hoff.
   destruct s as [a0 a1 len san any bo ws pend]. fields.
   destruct pend as [p|]; [|congruence]. clear Hpend H8.
-  pose proof (H9 p eq_refl) as HP0. pose proof (NsdP_sanitize _ _ _ HP0) as HP.
+  pose proof (H9 p eq_refl) as HP0. pose proof (NsdP_sanitize _ _ true _ HP0) as HP.
   unfold flush_previous_stream. fields.
   destruct san.
   { (* already sanitized *)
@@ -299,4 +297,696 @@ Proof.
     post8; try fin.
     + intros _. split; [|reflexivity]. constructor; fields; try fin; try (pend_goal HP).
       all: try solve [intros _; split; [lia|right; exact Hsan]].
+Qed.
+
+(* ------------------------------------------------------------------ phase H: collecting the look-ahead *)
+Lemma collect_ok s p input in_off :
+  lenN (bytes_so_far p) = 5 -> bytes_ok (bytes_so_far p) -> num_bytes_read p <= 5 ->
+  bytes_ok input -> in_off <= lenN input ->
+  exists s1 p1 in1, collect_header s p input in_off = Val (s1, p1, in1) /\
+    in_off <= in1 /\ in1 <= lenN input /\
+    lenN (bytes_so_far p1) = 5 /\ bytes_ok (bytes_so_far p1) /\ num_bytes_read p1 <= 5 /\
+    num_bytes_written p1 = num_bytes_written p /\
+    (num_bytes_read p1 < 5 -> in1 = lenN input) /\
+    (num_bytes_read p < 5 -> in_off < lenN input -> in_off < in1) /\
+    ((s1 = s /\ p1 = p) \/ s1 = set_pending s (Some p1)).
+Proof.
+  intros Hl Hb Hr Hin Hoff. destruct p as [bsf nr nw]. cbn [bytes_so_far num_bytes_read num_bytes_written] in *.
+  unfold collect_header. cbn [bytes_so_far num_bytes_read num_bytes_written]. rewrite Hl.
+  destruct (N.ltb_spec nr 5) as [Hlt|Hge].
+  - unfold sub_u. replace (5 <? nr) with false by (symmetry; apply N.ltb_ge; lia).
+    replace (lenN input <? in_off) with false by (symmetry; apply N.ltb_ge; lia).
+    set (tc := N.min (5 - nr) (lenN input - in_off)).
+    assert (Htc1 : tc <= 5 - nr) by (subst tc; lia).
+    assert (Htc2 : tc <= lenN input - in_off) by (subst tc; lia).
+    destruct (subN_ok input in_off tc ltac:(lia)) as [E1 L1]. rewrite E1.
+    rewrite blitN_ok by (rewrite L1, Hl; lia).
+    unfold add_u8. rewrite (w8_small tc) by lia.
+    replace (nr + tc <? 256) with true by (symmetry; apply N.ltb_lt; lia).
+    assert (A1 : lenN (takeN nr bsf ++ takeN tc (dropN in_off input) ++ dropN (nr + lenN (takeN tc (dropN in_off input))) bsf) = 5).
+    { rewrite lenN_blit by (rewrite L1, Hl; lia). exact Hl. }
+    assert (A2 : bytes_ok (takeN nr bsf ++ takeN tc (dropN in_off input) ++ dropN (nr + lenN (takeN tc (dropN in_off input))) bsf)).
+    { apply bytes_ok_blit; [exact Hb|]. apply bytes_ok_takeN. apply bytes_ok_dropN. exact Hin. }
+    do 3 eexists. split; [reflexivity|]. cbn [bytes_so_far num_bytes_read num_bytes_written].
+    conj; try assumption; try reflexivity; try lia; try (subst tc; lia).
+    right. reflexivity.
+  - do 3 eexists. split; [reflexivity|]. cbn [bytes_so_far num_bytes_read num_bytes_written].
+    conj; try assumption; try reflexivity; try lia.
+    left. split; reflexivity.
+Qed.
+
+(* ------------------------------------------------------------------ header parsing facts *)
+Lemma wbits4_range x w : wbits4 x = Some w -> 18 <= w /\ w <= 24.
+Proof. unfold wbits4. repeat (destruct (_ =? _); [intros H; injection H as <-; lia|]). discriminate. Qed.
+Lemma wbits7_range x w : wbits7 x = Some w -> 10 <= w /\ w <= 17.
+Proof. unfold wbits7. repeat (destruct (_ =? _); [intros H; injection H as <-; lia|]). discriminate. Qed.
+
+Lemma parse_window_size_cases sl : 2 <= lenN sl ->
+  parse_window_size sl = Val None \/
+  exists ws wo, parse_window_size sl = Val (Some (ws, wo)) /\ 10 <= ws /\ ws <= 30 /\ (wo = 1 \/ wo = 4 \/ wo = 7 \/ wo = 14).
+Proof.
+  intros Hl. unfold parse_window_size.
+  destruct (getN_ok sl 0 ltac:(lia)) as (b0 & E0 & _). rewrite E0.
+  destruct (getN_ok sl 1 ltac:(lia)) as (b1 & E1 & _). rewrite E1.
+  destruct (N.land b0 1 =? 0); [right; exists 16, 1; repeat split; try lia; auto|].
+  destruct (wbits4 (N.land b0 15)) as [w|] eqn:E4.
+  { apply wbits4_range in E4. right. exists w, 4. repeat split; try lia; auto. }
+  destruct (wbits7 (N.land b0 127)) as [w|] eqn:E7.
+  { apply wbits7_range in E7. right. exists w, 7. repeat split; try lia; auto. }
+  destruct (negb (N.land b0 128 =? 0)); [left; reflexivity|].
+  destruct ((10 <=? N.land b1 63) && (N.land b1 63 <=? 30)) eqn:E; [|left; reflexivity].
+  apply andb_true_iff in E. destruct E as [Ea Eb]. apply N.leb_le in Ea, Eb.
+  right. exists (N.land b1 63), 14. repeat split; try lia; auto.
+Qed.
+
+Lemma le_u64_ok l : forall idx acc, lenN l + idx <= 8 -> exists r, le_u64 l idx acc = Val r.
+Proof.
+  induction l as [|x l IH]; intros idx acc H; [eexists; reflexivity|].
+  cbn [le_u64 lenN] in *. replace (64 <=? idx * 8) with false by (symmetry; apply N.leb_gt; lia).
+  apply IH. lia.
+Qed.
+
+Lemma land3_le x : N.land x 3 <= 3.
+Proof. change 3 with (2 ^ 2 - 1) at 1. rewrite land_ones_mod. pose proof (N.mod_lt x (2 ^ 2)) as H. cbn in H. specialize (H ltac:(discriminate)). change (2 ^ 2) with 4 in *. lia. Qed.
+
+Lemma detect_varlen_offset_range sl ws wo : lenN sl <= 8 ->
+  parse_window_size sl = Val (Some (ws, wo)) ->
+  detect_varlen_offset sl = Val None \/
+  exists v, detect_varlen_offset sl = Val (Some v) /\ wo + 2 <= v /\ v <= wo + 31.
+Proof.
+  intros Hl Hp. unfold detect_varlen_offset. rewrite Hp.
+  destruct (le_u64_ok sl 0 0 ltac:(lia)) as (raw & Er). rewrite Er.
+  cbv zeta.
+  destruct (N.odd (N.shiftr raw wo)) eqn:E1; cbn [andb].
+  - destruct (N.odd (N.shiftr (N.shiftr raw wo) 1)) eqn:E2.
+    { right. eexists. split; [reflexivity|]. lia. }
+    set (bytes1 := N.shiftr (N.shiftr raw wo) 1).
+    pose proof (land3_le (N.shiftr bytes1 1)) as Hm3.
+    pose proof (land3_le (N.shiftr (N.shiftr (N.shiftr bytes1 1) 2) 1)) as Hk3.
+    destruct (N.eqb_spec (N.land (N.shiftr bytes1 1) 3) 3) as [Em|Em].
+    + destruct (N.odd (N.shiftr (N.shiftr bytes1 1) 2)); [left; reflexivity|]. right. eexists. split; [reflexivity|]. lia.
+    + match goal with |- context [if N.odd ?x then _ else _] => destruct (N.odd x) end; [|left; reflexivity].
+      right. eexists. split; [reflexivity|]. lia.
+  - set (bytes1 := N.shiftr raw wo).
+    pose proof (land3_le (N.shiftr bytes1 1)) as Hm3.
+    pose proof (land3_le (N.shiftr (N.shiftr (N.shiftr bytes1 1) 2) 1)) as Hk3.
+    destruct (N.eqb_spec (N.land (N.shiftr bytes1 1) 3) 3) as [Em|Em].
+    + destruct (N.odd (N.shiftr (N.shiftr bytes1 1) 2)); [left; reflexivity|]. right. eexists. split; [reflexivity|]. lia.
+    + match goal with |- context [if N.odd ?x then _ else _] => destruct (N.odd x) end; [|left; reflexivity].
+      right. eexists. split; [reflexivity|]. lia.
+Qed.
+
+(* ------------------------------------------------------------------ the two loops of the header shift *)
+Lemma realign_ok b lbbo : lbbo <= 8 -> forall n bi rh, bi + N.of_nat n + 1 <= lenN rh \/ n = O -> bytes_ok rh ->
+  exists rh', realign n bi b lbbo rh = Val rh' /\ lenN rh' = lenN rh /\ bytes_ok rh'.
+Proof.
+  intros Hb. induction n as [|n IH]; intros bi rh Hn Hok.
+  - exists rh. conj; try reflexivity; exact Hok.
+  - destruct Hn as [Hn|Hn]; [|discriminate].
+    cbn [realign]. cbv zeta. unfold sub_u. replace (8 <? lbbo) with false by (symmetry; apply N.ltb_ge; lia).
+    destruct (getN_ok rh bi ltac:(lia)) as (old & Eo & Hold). rewrite Eo.
+    rewrite updN_ok by lia.
+    rewrite updN_ok by (rewrite lenN_setN by lia; lia).
+    match goal with |- context [realign n (bi + 1) b lbbo ?r] => set (rh2 := r) end.
+    assert (L2 : lenN rh2 = lenN rh).
+    { subst rh2. rewrite lenN_setN by (rewrite lenN_setN by lia; lia). apply lenN_setN. lia. }
+    assert (B2 : bytes_ok rh2).
+    { subst rh2. apply bytes_ok_setN; [|apply w8_lt]. apply bytes_ok_setN; [exact Hok|].
+      apply byte_lor; [apply Hold; exact Hok|apply w8_lt]. }
+    destruct (IH (bi + 1) rh2) as (rh' & E & L & B); [|exact B2|].
+    + destruct n; [right; reflexivity|left; rewrite L2; lia].
+    + exists rh'. conj; [exact E|rewrite L; exact L2|exact B].
+Qed.
+
+Lemma copy_whole_ok wbd wbs bsf : bytes_ok bsf -> forall n i rh,
+  wbs + i + N.of_nat n <= lenN bsf -> wbd + i + N.of_nat n <= lenN rh -> bytes_ok rh ->
+  exists rh', copy_whole n i wbd wbs bsf rh = Val rh' /\ lenN rh' = lenN rh /\ bytes_ok rh'.
+Proof.
+  intros Hbsf. induction n as [|n IH]; intros i rh H1 H2 Hok.
+  - exists rh. conj; try reflexivity; exact Hok.
+  - cbn [copy_whole].
+    destruct (getN_ok bsf (wbs + i) ltac:(lia)) as (v & Ev & Hv). rewrite Ev.
+    rewrite updN_ok by lia.
+    destruct (IH (i + 1) (setN rh (wbd + i) v)) as (rh' & E & L & B).
+    + lia.
+    + rewrite lenN_setN by lia. lia.
+    + apply bytes_ok_setN; [exact Hok|apply Hv; exact Hbsf].
+    + exists rh'. conj; [exact E| |exact B]. rewrite L. apply lenN_setN. lia.
+Qed.
+
+(* ------------------------------------------------------------------ phase E: shift_and_check_new_stream_header *)
+Definition emit_ready (s : BroCatli) (p : NewStreamData) (out : list N) (off : N) : Prop :=
+  lenN (bytes_so_far p) = 5 /\ bytes_ok (bytes_so_far p) /\ num_bytes_read p <= 5 /\
+  (exists w, num_bytes_written p = Some w /\ w <= num_bytes_read p /\
+             (1 <= off \/ (w < num_bytes_read p /\ off < lenN out))) /\
+  off <= lenN out /\ bytes_ok out /\ window_size s <> 0.
+
+Definition is_header_error (rc : rcode) : Prop :=
+  rc = InvalidWindowSize \/ rc = WindowSizeLargerThanPreviousFile \/ rc = BrotliFileNotCraftedForConcatenation.
+
+Lemma div8_le a b : a <= b -> (a + 7) / 8 <= (b + 7) / 8.
+Proof. intros H. apply N.div_le_mono; [discriminate|lia]. Qed.
+
+Lemma ceil8_bound a k : a <= 8 * k -> (a + 7) / 8 <= k.
+Proof.
+  intros H. apply N.lt_succ_r. apply N.div_lt_upper_bound; [discriminate|]. lia.
+Qed.
+
+Lemma ceil8_pos a : 1 <= a -> 1 <= (a + 7) / 8.
+Proof. intros H. apply N.div_le_lower_bound; [discriminate|lia]. Qed.
+
+Lemma ceil8_add8 a : (a + 8 + 7) / 8 = (a + 7) / 8 + 1.
+Proof. replace (a + 8 + 7) with (a + 7 + 1 * 8) by lia. rewrite N.div_add by discriminate. reflexivity. Qed.
+
+Lemma shift_prepare_ok s p out off :
+  InvP s -> last_byte_sanitized s = true -> NsdP (window_size s) true p ->
+  (num_bytes_written p = None -> num_bytes_read p = 5) ->
+  bytes_ok out -> off < lenN out ->
+  exists r, shift_prepare s p out off = Val r /\
+  match r with
+  | inr rc => is_header_error rc
+  | inl q =>
+     InvP (set_pending (p_s q) (new_stream_pending s)) /\ last_byte_sanitized (p_s q) = true /\
+     new_stream_pending (p_s q) = new_stream_pending s /\
+     emit_ready (p_s q) (p_nsp q) (p_out q) (p_off q) /\ lenN (p_out q) = lenN out /\
+     off <= p_off q /\ p_off q <= off + 1 /\
+     (num_bytes_written p = None -> p_off q = off + 1) /\
+     (num_bytes_written p <> None -> p_off q = off /\ exists w, num_bytes_written p = Some w /\ w < num_bytes_read p)
+  end.
+Proof.
+  intros HI Hsan [P1 P2 P3 P4] Hsuf Hout Hoff.
+  pose proof HI as [H1 H2 H3 H4 H5 H6 H7 H8 H9].
+  destruct s as [a0 a1 len san any bo ws pend]. fields. subst san.
+  destruct p as [bsf nr nw]. cbn [bytes_so_far num_bytes_read num_bytes_written] in *.
+  unfold shift_prepare. cbn [bytes_so_far num_bytes_read num_bytes_written]. fields.
+  destruct nw as [w|].
+  { (* the header has been realigned already *)
+    destruct (P4 w eq_refl) as (A & B).
+    replace (ws =? 0) with false by (symmetry; apply N.eqb_neq; exact B).
+    eexists. split; [reflexivity|]. cbn [p_s p_nsp p_out p_off]. fields.
+    assert (HE : emit_ready (mkBC a0 a1 len true any bo ws pend) (mkNSD bsf nr (Some w)) out off).
+    { unfold emit_ready. cbn [bytes_so_far num_bytes_read num_bytes_written]. fields. conj; try fin.
+      exists w. conj; fin. }
+    assert (HW : Some w <> None -> off = off /\ exists w0, Some w = Some w0 /\ w0 < nr).
+    { intros _. split; [reflexivity|]. exists w. split; [reflexivity|exact A]. }
+    conj; fin. }
+  specialize (Hsuf eq_refl). subst nr.
+  unfold slice_to. rewrite P1. cbn [N.leb N.compare Pos.compare Pos.compare_cont].
+  change (5 <=? 5) with true. cbv iota.
+  assert (Esl : takeN 5 bsf = bsf).
+  { unfold takeN. apply firstn_all2. rewrite lenN_length in P1. lia. }
+  rewrite Esl.
+  destruct (parse_window_size_cases bsf ltac:(lia)) as [Ep|(pw & wo & Ep & Hpw1 & Hpw2 & Hwo)]; rewrite Ep.
+  { eexists. split; [reflexivity|]. left. reflexivity. }
+  destruct (N.eqb_spec ws 0) as [Hws|Hws].
+  { (* first member: its header is copied as it is *)
+    destruct (H6 Hws) as [Hl0 Hb0]. subst bo. cbn [N.eqb negb].
+    destruct (getN_ok bsf 0 ltac:(lia)) as (b0 & E0 & Hb0). rewrite E0.
+    rewrite updN_ok by exact Hoff.
+    eexists. split; [reflexivity|]. cbn [p_s p_nsp p_out p_off]. fields.
+    assert (HI' : InvP (mkBC a0 a1 len true true 0 pw pend)).
+    { constructor; fields; try fin.
+      intros q Hq. specialize (H9 q Hq). destruct H9 as [Q1 Q2 Q3 Q4]. split; try assumption.
+      intros k Hk. destruct (Q4 k Hk) as (_ & B). contradiction. }
+    assert (HE : emit_ready (mkBC a0 a1 len true true 0 pw pend) (mkNSD bsf 5 (Some 1)) (setN out off b0) (off + 1)).
+    { unfold emit_ready. cbn [bytes_so_far num_bytes_read num_bytes_written]. fields. conj; try fin.
+      + exists 1. conj; fin.
+      + rewrite lenN_setN by exact Hoff. lia.
+      + apply bytes_ok_setN; [exact Hout|apply Hb0; exact P2]. }
+    assert (HL : lenN (setN out off b0) = lenN out) by (apply lenN_setN; exact Hoff).
+    conj; fin. }
+  destruct (N.ltb_spec ws pw) as [Hgt|Hle].
+  { eexists. split; [reflexivity|]. right. left. reflexivity. }
+  destruct (detect_varlen_offset_range bsf pw wo ltac:(lia) Ep) as [Ed|(v & Ed & Hv1 & Hv2)]; rewrite Ed.
+  { eexists. split; [reflexivity|]. right. right. reflexivity. }
+  destruct (le_u64_ok bsf 0 0 ltac:(lia)) as (raw & Er). rewrite Er.
+  unfold sub_u at 1. replace (v <? wo) with false by (symmetry; apply N.ltb_ge; lia).
+  replace (64 <=? v - wo) with false by (symmetry; apply N.leb_gt; lia).
+  cbv zeta.
+  assert (Hvlb : (v - wo + 7) / 8 <= 4) by (apply ceil8_bound; lia).
+  destruct (realign_ok (N.land (N.shiftr raw wo) (2 ^ (v - wo) - 1)) bo ltac:(lia)
+              (N.to_nat ((v - wo + 7) / 8)) 0 [a0; 0; 0; 0; 0; 0]) as (rh & Erh & Lrh & Brh).
+  { left. cbn [lenN]. lia. }
+  { repeat (apply bytes_ok_cons; [lia|]). constructor. }
+  rewrite Erh. cbn [lenN] in Lrh.
+  unfold sub_u at 1. replace (bo + v <? wo) with false by (symmetry; apply N.ltb_ge; lia).
+  set (wbd := (bo + v - wo + 7) / 8). set (wbs := (v + 7) / 8).
+  assert (Hwbd1 : 1 <= wbd) by (subst wbd; apply ceil8_pos; lia).
+  assert (Hwbd2 : wbd <= wbs + 1).
+  { subst wbd wbs. rewrite <- ceil8_add8. apply div8_le. lia. }
+  destruct (N.ltb_spec 5 wbs) as [Hbig|Hfit].
+  { eexists. split; [reflexivity|]. right. right. reflexivity. }
+  unfold sub_u at 1. replace (5 <? wbs) with false by (symmetry; apply N.ltb_ge; lia).
+  destruct (copy_whole_ok wbd wbs bsf P2 (N.to_nat (5 - wbs)) 0 rh) as (rh' & Ec & Lc & Bc); try lia; try assumption.
+  rewrite Ec.
+  destruct (getN_ok rh' 0 ltac:(lia)) as (r0 & E0 & Hr0). rewrite E0.
+  rewrite updN_ok by exact Hoff.
+  rewrite (w8_small (wbd + (5 - wbs))) by lia.
+  unfold sub_u. replace (wbd + (5 - wbs) <? 1) with false by (symmetry; apply N.ltb_ge; lia).
+  eexists. split; [reflexivity|]. cbn [p_s p_nsp p_out p_off]. fields.
+  assert (HI' : InvP (mkBC a0 a1 len true true bo ws pend)).
+  { constructor; fields; fin. }
+  assert (HE : emit_ready (mkBC a0 a1 len true true bo ws pend) (mkNSD (dropN 1 rh') (wbd + (5 - wbs) - 1) (Some 0)) (setN out off r0) (off + 1)).
+  { unfold emit_ready. cbn [bytes_so_far num_bytes_read num_bytes_written]. fields. conj; try fin.
+    + rewrite lenN_dropN. lia.
+    + apply bytes_ok_dropN. exact Bc.
+    + exists 0. conj; fin.
+    + rewrite lenN_setN by exact Hoff. lia.
+    + apply bytes_ok_setN; [exact Hout|apply Hr0; exact Bc]. }
+  assert (HL : lenN (setN out off r0) = lenN out) by (apply lenN_setN; exact Hoff).
+  conj; fin.
+Qed.
+
+Lemma InvP_set_pending s a b : InvP (set_pending s (Some a)) ->
+  NsdP (window_size s) (last_byte_sanitized s) b -> InvP (set_pending s (Some b)).
+Proof.
+  intros [H1 H2 H3 H4 H5 H6 H7 H8 H9] Hb. destruct s as [a0 a1 len san any bo ws pend]. fields.
+  constructor; fields; try fin. all: try (intros q Hq; injection Hq as <-; exact Hb).
+Qed.
+
+Lemma InvP_set_any s v : InvP s -> InvP (set_any s v).
+Proof.
+  intros [H1 H2 H3 H4 H5 H6 H7 H8 H9]. destruct s as [a0 a1 len san any bo ws pend]. fields.
+  constructor; fields; fin.
+Qed.
+
+Lemma shift_emit_ok s p0 p out off :
+  InvP (set_pending s (Some p0)) -> last_byte_sanitized s = true -> emit_ready s p out off ->
+  exists f, shift_emit s p out off = Val f /\
+    lenN (f_out f) = lenN out /\ bytes_ok (f_out f) /\ f_off f <= lenN out /\ off <= f_off f + 1 /\
+    ((f_rc f = NeedsMoreOutput /\ f_off f = lenN out /\ off <= f_off f /\ InvP (f_s f) /\
+      new_stream_pending (f_s f) <> None) \/
+     (f_rc f = Success /\ InvP (f_s f) /\ new_stream_pending (f_s f) = None /\ window_size (f_s f) <> 0 /\
+      f_off f < lenN out /\
+      (forall w, num_bytes_written p = Some w -> w < num_bytes_read p -> off < lenN out -> off <= f_off f))).
+Proof.
+  intros HI Hsan (E1 & E2 & E3 & (w & Ew & Hw & Hpos) & Eoff & Eout & Ews).
+  destruct p as [bsf nr nw]. cbn [bytes_so_far num_bytes_read num_bytes_written] in *. subst nw.
+  unfold shift_emit. cbn [bytes_so_far num_bytes_read num_bytes_written].
+  unfold sub_u. replace (lenN out <? off) with false by (symmetry; apply N.ltb_ge; lia).
+  replace (nr <? w) with false by (symmetry; apply N.ltb_ge; lia).
+  cbv zeta. set (tc := N.min (lenN out - off) (nr - w)).
+  assert (T1 : tc <= lenN out - off) by (subst tc; lia).
+  assert (T2 : tc <= nr - w) by (subst tc; lia).
+  replace (lenN bsf <? w) with false by (symmetry; apply N.ltb_ge; lia).
+  destruct (subN_ok bsf w tc ltac:(lia)) as [Es Ls]. rewrite Es.
+  rewrite blitN_ok by (rewrite Ls; lia).
+  set (out' := takeN off out ++ takeN tc (dropN w bsf) ++ dropN (off + lenN (takeN tc (dropN w bsf))) out).
+  assert (Lo : lenN out' = lenN out) by (subst out'; apply lenN_blit; rewrite Ls; lia).
+  assert (Bo : bytes_ok out').
+  { subst out'. apply bytes_ok_blit; [exact Eout|]. apply bytes_ok_takeN. apply bytes_ok_dropN. exact E2. }
+  unfold add_u8. rewrite (w8_small tc) by lia.
+  replace (w + tc <? 256) with true by (symmetry; apply N.ltb_lt; lia).
+  pose proof HI as [H1 H2 H3 H4 H5 H6 H7 H8 H9].
+  destruct (N.eqb_spec (w + tc) nr) as [Heq|Hne]; cbn [negb].
+  - (* everything written: take the last byte back *)
+    assert (Hoff1 : 1 <= off + tc) by lia.
+    replace (off + tc <? 1) with false by (symmetry; apply N.ltb_ge; lia).
+    destruct (getN_ok out' (off + tc - 1) ltac:(lia)) as (b & Eb & Hb). rewrite Eb.
+    eexists. split; [reflexivity|]. fields.
+    conj; try fin. right.
+    assert (Hws' : window_size (if tc =? 0 then s else set_any s true) = window_size s)
+      by (destruct (tc =? 0); destruct s; reflexivity).
+    rewrite Hws'.
+    assert (HI2 : InvP (mkBC b 0 1 false (any_bytes_emitted (if tc =? 0 then s else set_any s true)) 0 (window_size s) None)).
+    { destruct s as [a0 a1 len san any bo ws pend]. fields. constructor; fields; try fin. apply Hb. exact Bo. }
+    conj; try fin. intros w0 Hw0 Hlt Hroom. injection Hw0 as <-. lia.
+  - (* output full *)
+    eexists. split; [reflexivity|]. fields.
+    conj; try fin. left.
+    assert (Hfull : off + tc = lenN out) by (subst tc; lia).
+    conj; try fin.
+    + assert (HN : NsdP (window_size s) (last_byte_sanitized s) (mkNSD bsf nr (Some (w + tc)))).
+      { split; cbn [bytes_so_far num_bytes_read num_bytes_written]; try fin.
+        intros k Hk. injection Hk as <-. conj; fin. }
+      destruct (tc =? 0).
+      * eapply InvP_set_pending; [exact HI|exact HN].
+      * destruct s as [a0 a1 len san any bo ws pend]. fields.
+        apply (InvP_set_pending (mkBC a0 a1 len san true bo ws pend) p0); [|exact HN].
+        apply (InvP_set_any (mkBC a0 a1 len san any bo ws (Some p0)) true). exact HI.
+Qed.
+
+(* ------------------------------------------------------------------ phase B: the two-byte-delayed body copy *)
+Definition BI (s : BroCatli) : Prop := InvP s /\ new_stream_pending s = None /\ window_size s <> 0.
+
+Definition body_post (s : BroCatli) (input : list N) (in_off : N) (out : list N) (off : N) (r : sret) : Prop :=
+  BI (r_s r) /\ window_size (r_s r) = window_size s /\
+  in_off <= r_in r /\ r_in r <= lenN input /\ off <= r_off r /\ r_off r <= lenN out /\
+  lenN (r_out r) = lenN out /\ bytes_ok (r_out r) /\
+  (r_rc r = NeedsMoreInput \/ r_rc r = NeedsMoreOutput) /\
+  (r_rc r = NeedsMoreInput -> r_in r = lenN input) /\
+  (r_rc r = NeedsMoreOutput -> r_off r = lenN out) /\
+  (off < lenN out -> in_off < lenN input -> in_off < r_in r).
+
+Lemma BI_set_lbs s a b : BI s -> a < 256 -> b < 256 -> BI (set_lbs s a b).
+Proof.
+  intros ([H1 H2 H3 H4 H5 H6 H7 H8 H9] & Hn & Hw) Ha Hb. destruct s as [a0 a1 len san any bo ws pend]. fields. subst pend.
+  pose proof (H8 eq_refl) as Hs. subst san.
+  repeat split; fields; try fin.
+Qed.
+
+Lemma fill_one_ok s input in_off : BI s -> last_bytes_len s <> 2 -> in_off < lenN input -> bytes_ok input ->
+  exists s1, fill_one s input in_off = Val (s1, in_off + 1) /\ BI s1 /\ window_size s1 = window_size s /\
+             last_bytes_len s1 = last_bytes_len s + 1.
+Proof.
+  intros ([H1 H2 H3 H4 H5 H6 H7 H8 H9] & Hn & Hw) Hl Hi Hb.
+  destruct s as [a0 a1 len san any bo ws pend]. fields. subst pend. pose proof (H8 eq_refl) as Hs. subst san.
+  unfold fill_one. destruct (getN_ok input in_off Hi) as (b & Eb & Hbb). rewrite Eb. specialize (Hbb Hb).
+  unfold set_lb_at. fields.
+  assert (Hlen : len = 0 \/ len = 1) by lia.
+  destruct Hlen as [-> | ->]; cbn [N.eqb Pos.eqb]; fields; unfold add_u8; cbn [N.add N.ltb N.compare Pos.compare Pos.compare_cont Pos.add];
+    (eexists; split; [reflexivity|]; unfold BI; fields; repeat split; fields; try fin).
+Qed.
+
+Lemma list_len2 (l : list N) : lenN l = 2 -> exists a b, l = [a; b].
+Proof.
+  destruct l as [|a [|b [|c l]]]; cbn [lenN]; intros H; try lia. exists a, b. reflexivity.
+Qed.
+
+Lemma stream_copy_ok s input in_off out off :
+  BI s -> bytes_ok input -> bytes_ok out -> in_off <= lenN input -> off <= lenN out ->
+  exists r, stream_copy s input in_off out off = Val r /\ body_post s input in_off out off r.
+Proof.
+  intros HB Hin Hout Hio Hoo. pose proof HB as (HI & Hn & Hw). pose proof HI as [H1 H2 H3 H4 H5 H6 H7 H8 H9].
+  unfold stream_copy.
+  destruct (N.eqb_spec (lenN out) off) as [E1|E1].
+  { eexists. split; [reflexivity|]. unfold body_post. cbn [r_s r_in r_out r_off r_rc]. conj; try fin; try (right; reflexivity). }
+  destruct (N.eqb_spec (lenN input) in_off) as [E2|E2].
+  { eexists. split; [reflexivity|]. unfold body_post. cbn [r_s r_in r_out r_off r_rc]. conj; try fin; try (left; reflexivity). }
+  unfold sub_u. replace (lenN out <? off) with false by (symmetry; apply N.ltb_ge; lia).
+  replace (lenN input <? in_off) with false by (symmetry; apply N.ltb_ge; lia).
+  cbv zeta. set (tc := N.min (lenN out - off) (lenN input - in_off)).
+  assert (T1 : tc <= lenN out - off) by (subst tc; lia).
+  assert (T2 : tc <= lenN input - in_off) by (subst tc; lia).
+  assert (T3 : 1 <= tc) by (subst tc; lia).
+  replace (tc =? 0) with false by (symmetry; apply N.eqb_neq; lia).
+  destruct (N.eqb_spec tc 1) as [Et|Et].
+  - rewrite updN_ok by lia.
+    destruct (getN_ok input in_off ltac:(lia)) as (b & Eb & Hb). rewrite Eb. specialize (Hb Hin).
+    eexists. split; [reflexivity|]. unfold body_post. cbn [r_s r_in r_out r_off r_rc].
+    assert (HB' : BI (set_lbs s (lb1 s) b)) by (apply BI_set_lbs; assumption).
+    assert (HL : lenN (setN out off (lb0 s)) = lenN out) by (apply lenN_setN; lia).
+    assert (HO : bytes_ok (setN out off (lb0 s))) by (apply bytes_ok_setN; assumption).
+    assert (HW : window_size (set_lbs s (lb1 s) b) = window_size s) by (destruct s; reflexivity).
+    destruct (N.eqb_spec (off + 1) (lenN out)) as [E3|E3]; conj; try fin;
+      try (left; reflexivity); try (right; reflexivity); try (intros; subst tc; lia).
+  - assert (T4 : 2 <= tc) by lia.
+    rewrite blitN_ok by (cbn [lenN]; lia).
+    destruct (subN_ok input in_off tc ltac:(lia)) as [Es Ls]. rewrite Es.
+    replace (tc <? 2) with false by (symmetry; apply N.ltb_ge; lia).
+    set (chunk := takeN tc (dropN in_off input)) in *.
+    assert (Bc : bytes_ok chunk) by (subst chunk; apply bytes_ok_takeN; apply bytes_ok_dropN; exact Hin).
+    destruct (list_len2 (dropN (tc - 2) chunk)) as (a & b & Eab); [rewrite lenN_dropN, Ls; lia|].
+    rewrite Eab.
+    assert (Bab : bytes_ok [a; b]) by (rewrite <- Eab; apply bytes_ok_dropN; exact Bc).
+    assert (Ha : a < 256) by (inversion Bab; assumption).
+    assert (Hb : b < 256) by (inversion Bab as [|? ? ? Hr]; inversion Hr; assumption).
+    set (out1 := takeN off out ++ [lb0 s; lb1 s] ++ dropN (off + lenN [lb0 s; lb1 s]) out).
+    assert (L1 : lenN out1 = lenN out) by (subst out1; apply lenN_blit; cbn [lenN]; lia).
+    assert (B1 : bytes_ok out1).
+    { subst out1. apply bytes_ok_blit; [exact Hout|]. repeat (apply bytes_ok_cons; [assumption|]). constructor. }
+    assert (Lb : lenN (takeN (tc - 2) chunk) = tc - 2) by (apply lenN_takeN; rewrite Ls; lia).
+    rewrite blitN_ok by (rewrite Lb, L1; lia).
+    eexists. split; [reflexivity|]. unfold body_post. cbn [r_s r_in r_out r_off r_rc].
+    assert (HB' : BI (set_lbs s a b)) by (apply BI_set_lbs; assumption).
+    assert (HW : window_size (set_lbs s a b) = window_size s) by (destruct s; reflexivity).
+    assert (L2 : lenN (takeN (off + 2) out1 ++ takeN (tc - 2) chunk ++ dropN (off + 2 + lenN (takeN (tc - 2) chunk)) out1) = lenN out).
+    { rewrite lenN_blit by (rewrite Lb, L1; lia). exact L1. }
+    assert (B2 : bytes_ok (takeN (off + 2) out1 ++ takeN (tc - 2) chunk ++ dropN (off + 2 + lenN (takeN (tc - 2) chunk)) out1)).
+    { apply bytes_ok_blit; [exact B1|apply bytes_ok_takeN; exact Bc]. }
+    destruct (N.eqb_spec (off + 2 + (tc - 2)) (lenN out)) as [E3|E3]; conj; try fin;
+      try (left; reflexivity); try (right; reflexivity); try (intros; subst tc; lia).
+Qed.
+
+Lemma body_post_weaken s s' input in_off in' out off r :
+  body_post s' input in' out off r -> window_size s' = window_size s -> in_off < in' ->
+  body_post s input in_off out off r.
+Proof.
+  unfold body_post. intros (A & B & C & D & E & F & G & H & I & J & K & L) Hw Hlt.
+  conj; try fin.
+Qed.
+
+Lemma stream_body_ok s input in_off out off :
+  BI s -> bytes_ok input -> bytes_ok out -> in_off <= lenN input -> off <= lenN out ->
+  exists r, stream_body s input in_off out off = Val r /\ body_post s input in_off out off r.
+Proof.
+  intros HB Hin Hout Hio Hoo. pose proof HB as (HI & Hn & Hw).
+  unfold stream_body. rewrite Hn.
+  destruct (N.eqb_spec (last_bytes_len s) 2) as [El|El]; cbn [negb].
+  { apply stream_copy_ok; assumption. }
+  destruct (N.eqb_spec (lenN out) off) as [E1|E1].
+  { eexists. split; [reflexivity|]. unfold body_post. cbn [r_s r_in r_out r_off r_rc]. conj; try fin; try (right; reflexivity). }
+  destruct (N.eqb_spec (lenN input) in_off) as [E2|E2].
+  { eexists. split; [reflexivity|]. unfold body_post. cbn [r_s r_in r_out r_off r_rc]. conj; try fin; try (left; reflexivity). }
+  destruct (fill_one_ok s input in_off HB El ltac:(lia) Hin) as (s1 & F1 & HB1 & W1 & L1). rewrite F1.
+  destruct (N.eqb_spec (last_bytes_len s1) 2) as [El1|El1]; cbn [negb].
+  { destruct (stream_copy_ok s1 input (in_off + 1) out off HB1 Hin Hout ltac:(lia) Hoo) as (r & Er & Pr).
+    exists r. split; [exact Er|]. eapply body_post_weaken; [exact Pr|exact W1|lia]. }
+  replace (lenN out =? off) with false by (symmetry; apply N.eqb_neq; exact E1).
+  destruct (N.eqb_spec (lenN input) (in_off + 1)) as [E3|E3].
+  { eexists. split; [reflexivity|]. unfold body_post. cbn [r_s r_in r_out r_off r_rc]. conj; try fin; try (left; reflexivity). }
+  destruct (fill_one_ok s1 input (in_off + 1) HB1 El1 ltac:(lia) Hin) as (s2 & F2 & HB2 & W2 & L2). rewrite F2.
+  destruct (stream_copy_ok s2 input (in_off + 1 + 1) out off HB2 Hin Hout ltac:(lia) Hoo) as (r & Er & Pr).
+  exists r. split; [exact Er|]. eapply body_post_weaken; [exact Pr|congruence|lia].
+Qed.
+
+(* ------------------------------------------------------------------ stream: all phases together *)
+Definition stream_post (s : BroCatli) (input : list N) (in_off : N) (out : list N) (off : N) (r : sret) : Prop :=
+  InvP (r_s r) /\ Started (r_s r) /\
+  in_off <= r_in r /\ r_in r <= lenN input /\ off <= r_off r /\ r_off r <= lenN out /\
+  lenN (r_out r) = lenN out /\ bytes_ok (r_out r) /\
+  r_rc r <> Success /\
+  (r_rc r = NeedsMoreInput -> r_in r = lenN input) /\
+  (r_rc r = NeedsMoreOutput -> r_off r = lenN out) /\
+  (r_rc r = NeedsMoreInput \/ r_rc r = NeedsMoreOutput -> off < lenN out -> in_off < lenN input ->
+     in_off < r_in r \/ off < r_off r).
+
+Lemma Started_ws s : window_size s <> 0 -> Started s.
+Proof. intros H. unfold Started, startedb. apply N.eqb_neq in H. rewrite H. reflexivity. Qed.
+Lemma Started_pending s : new_stream_pending s <> None -> Started s.
+Proof. intros H. unfold Started, startedb. destruct (new_stream_pending s); [apply orb_true_r|congruence]. Qed.
+
+Lemma body_to_stream_post s0 s input in_off in1 out0 out off0 off r :
+  body_post s input in1 out off r -> in_off <= in1 -> off0 <= off -> lenN out = lenN out0 -> window_size s <> 0 ->
+  (off0 < lenN out0 -> off < lenN out) ->
+  stream_post s0 input in_off out0 off0 r.
+Proof.
+  unfold body_post, stream_post. intros ((HI & Hn & Hw) & B & C & D & E & F & G & H & I & J & K & L) H1 H2 H3 H4 H5.
+  assert (S1 : Started (r_s r)) by (apply Started_ws; exact Hw).
+  assert (S2 : r_rc r <> Success) by (destruct I as [I|I]; rewrite I; discriminate).
+  assert (S3 : r_rc r = NeedsMoreInput \/ r_rc r = NeedsMoreOutput -> off0 < lenN out0 -> in_off < lenN input ->
+               in_off < r_in r \/ off0 < r_off r).
+  { intros _ Ha Hb. destruct (N.eq_dec in_off in1) as [<-|Hne]; [|left; lia].
+    left. apply L; [apply H5; exact Ha|exact Hb]. }
+  conj; try fin. intros X. rewrite <- H3. apply K. exact X.
+Qed.
+
+Theorem stream_total s input in_off out off :
+  InvP s -> Started s -> bytes_ok input -> bytes_ok out -> in_off <= lenN input -> off <= lenN out ->
+  exists r, stream s input in_off out off = Val r /\ stream_post s input in_off out off r.
+Proof.
+  intros HI HS Hin Hout Hio Hoo. unfold stream.
+  destruct (new_stream_pending s) as [p|] eqn:Ep.
+  2: { (* body only *)
+    assert (Hw : window_size s <> 0).
+    { unfold Started, startedb in HS. rewrite Ep in HS. cbn in HS. rewrite orb_false_r in HS.
+      apply negb_true_iff in HS. apply N.eqb_neq. exact HS. }
+    destruct (stream_body_ok s input in_off out off (conj HI (conj Ep Hw)) Hin Hout Hio Hoo) as (r & Er & Pr).
+    exists r. split; [exact Er|]. eapply body_to_stream_post; try exact Pr; try fin. }
+  destruct (flush_ok s out off HI ltac:(congruence) Hout Hoo) as (f & Ef & FL & FB & F1 & F2 & FP & FW & FS & FN).
+  rewrite Ef. rewrite Ep in FP.
+  destruct (f_rc f) eqn:Erc.
+  2-7: (destruct (FN ltac:(discriminate)) as (N1 & N2 & N3 & N4 & N5);
+        eexists; split; [reflexivity|]; unfold stream_post; cbn [r_s r_in r_out r_off r_rc];
+        rewrite N1, N2, N3; conj; try fin; try (apply Started_pending; congruence);
+        try (intros [X|X]; try discriminate X; intros; exfalso; specialize (N4 eq_refl); lia)).
+  destruct (FS eq_refl) as (HIf & Hsf). clear FN FS.
+  assert (HPf : NsdP (window_size (f_s f)) true p).
+  { destruct HIf as [_ _ _ _ _ _ _ _ H9]. rewrite Hsf in H9. apply H9. exact FP. }
+  (* the look-ahead *)
+  assert (Hcol : exists s1 p1 in1,
+     (if is_none (num_bytes_written p) then collect_header (f_s f) p input in_off else Val (f_s f, p, in_off)) = Val (s1, p1, in1) /\
+     in_off <= in1 /\ in1 <= lenN input /\ InvP s1 /\ last_byte_sanitized s1 = true /\ new_stream_pending s1 = Some p1 /\
+     window_size s1 = window_size (f_s f) /\ NsdP (window_size s1) true p1 /\
+     num_bytes_written p1 = num_bytes_written p /\
+     (num_bytes_written p = None -> (num_bytes_read p1 < 5 -> in1 = lenN input) /\ (num_bytes_read p1 = 5 \/ num_bytes_read p1 < 5)) /\
+     (num_bytes_written p <> None -> in1 = in_off)).
+  { pose proof HPf as [P1 P2 P3 P4].
+    destruct (num_bytes_written p) as [k|] eqn:Ek; cbn [is_none].
+    - do 3 eexists. split; [reflexivity|]. conj; try fin.
+    - destruct (collect_ok (f_s f) p input in_off P1 P2 P3 Hin Hio) as (s1 & p1 & in1 & Ec & C1 & C2 & C3 & C4 & C5 & C6 & C7 & C8 & C9).
+      exists s1, p1, in1. split; [exact Ec|].
+      assert (HN1 : NsdP (window_size (f_s f)) (last_byte_sanitized (f_s f)) p1).
+      { split; try assumption. intros k Hk. rewrite C6, Ek in Hk. discriminate. }
+      destruct C9 as [[-> ->] | ->].
+      + conj; try fin.
+      + assert (HI1 : InvP (set_pending (f_s f) (Some p1))).
+        { apply (InvP_set_pending (f_s f) p); [|exact HN1]. destruct (f_s f); fields. subst. exact HIf. }
+        destruct (f_s f) as [a0 a1 len san any bo ws pend]; fields. subst san.
+        conj; try fin. }
+  destruct Hcol as (s1 & p1 & in1 & Ec & C1 & C2 & HI1 & Hs1 & Hp1 & Hw1 & HN1 & Cw & Cn & Cs). rewrite Ec.
+  assert (HSt1 : Started s1) by (apply Started_pending; congruence).
+  destruct (is_none (num_bytes_written p) && negb (sufficient p1)) eqn:Esuf.
+  { (* more look-ahead needed *)
+    apply andb_true_iff in Esuf. destruct Esuf as [En Es].
+    assert (Ew : num_bytes_written p = None) by (destruct (num_bytes_written p); [discriminate|reflexivity]).
+    destruct (Cn Ew) as [Cn1 Cn2]. unfold sufficient, NUM_STREAM_HEADER_BYTES in Es. apply negb_true_iff, N.eqb_neq in Es.
+    assert (Hin1 : in1 = lenN input) by (apply Cn1; lia).
+    eexists. split; [reflexivity|]. unfold stream_post. cbn [r_s r_in r_out r_off r_rc].
+    conj; try fin; try (intros _ _ Hlt; left; lia). }
+  destruct (N.eqb_spec (lenN (f_out f)) (f_off f)) as [Efull|Eroom].
+  { eexists. split; [reflexivity|]. unfold stream_post. cbn [r_s r_in r_out r_off r_rc].
+    conj; try fin; try (intros _ Hlt _; right; lia). }
+  (* the header shift *)
+  assert (Hsuf : num_bytes_written p1 = None -> num_bytes_read p1 = 5).
+  { intros Hn. rewrite Cw in Hn. rewrite Hn in Esuf. cbn [is_none andb] in Esuf.
+    apply negb_false_iff in Esuf. unfold sufficient, NUM_STREAM_HEADER_BYTES in Esuf. apply N.eqb_eq in Esuf. exact Esuf. }
+  destruct (shift_prepare_ok s1 p1 (f_out f) (f_off f) HI1 Hs1 HN1 Hsuf FB ltac:(lia)) as (pr & Epr & Ppr).
+  unfold shift_and_check_new_stream_header. rewrite Epr.
+  destruct pr as [q|rc].
+  2: { (* header rejected *)
+    cbn [f_rc f_s f_out f_off].
+    assert (Hrc : rc <> Success /\ rc <> NeedsMoreInput /\ rc <> NeedsMoreOutput)
+      by (destruct Ppr as [-> | [-> | ->]]; repeat split; discriminate).
+    destruct Hrc as (R1 & R2 & R3).
+    destruct rc; try congruence;
+      (eexists; split; [reflexivity|]; unfold stream_post; cbn [r_s r_in r_out r_off r_rc];
+       conj; try fin; intros [X|X]; discriminate X). }
+  destruct Ppr as (Q1 & Q2 & Q3 & Q4 & Q5 & Q6 & Q7 & Q8 & Q9).
+  rewrite Hp1 in Q1.
+  destruct (shift_emit_ok (p_s q) p1 (p_nsp q) (p_out q) (p_off q) Q1 Q2 Q4) as (g & Eg & G1 & G2 & G3 & G4 & G5).
+  rewrite Eg.
+  destruct G5 as [(R1 & R2 & R3 & R4 & R5)|(R1 & R2 & R3 & R4 & R5 & R6)]; rewrite R1.
+  - (* output full while emitting the header *)
+    eexists. split; [reflexivity|]. unfold stream_post. cbn [r_s r_in r_out r_off r_rc].
+    conj; try fin; try (apply Started_pending; exact R5); try (intros _ Hlt _; right; lia).
+  - (* header done: continue with the body *)
+    replace (f_off g =? lenN (f_out g)) with false by (symmetry; apply N.eqb_neq; lia).
+    assert (Hoffg : f_off f <= f_off g).
+    { destruct (num_bytes_written p) as [k|] eqn:Ek.
+      - destruct (Q9 ltac:(rewrite Cw; discriminate)) as (Qa & w & Qb & Qc).
+        destruct Q4 as (_ & _ & _ & (w' & Qw & _) & _).
+        assert (Hq : p_nsp q = p1 /\ True).
+        { split; [|exact I]. clear - Epr Cw Ek. unfold shift_prepare in Epr. rewrite Cw in Epr.
+          destruct (window_size s1 =? 0); [discriminate|]. injection Epr as <-. reflexivity. }
+        destruct Hq as [Hq _]. rewrite Hq in *.
+        rewrite Qa in *. apply (R6 w Qb Qc). lia.
+      - specialize (Q8 ltac:(rewrite Cw; reflexivity)). lia. }
+    destruct (stream_body_ok (f_s g) input in1 (f_out g) (f_off g) (conj R2 (conj R3 R4)) Hin G2 C2 ltac:(lia)) as (r & Er & Pr).
+    exists r. split; [exact Er|].
+    eapply body_to_stream_post; try exact Pr; try fin.
+Qed.
+
+(* ------------------------------------------------------------------ finish *)
+Lemma append_eof_ok s : InvP s -> last_byte_sanitized s = true -> last_bytes_len s <> 0 ->
+  exists s1, append_eof_metablock_to_last_bytes s = Val s1 /\ InvP s1 /\ last_byte_sanitized s1 = false /\
+             new_stream_pending s1 = new_stream_pending s /\ window_size s1 = window_size s.
+Proof.
+  intros [H1 H2 H3 H4 H5 H6 H7 H8 H9] Hs Hl. destruct s as [a0 a1 len san any bo ws pend]. fields. subst san.
+  destruct (H7 eq_refl) as [L1 L2]. assert (len = 1) by lia. subst len.
+  assert (Hws : ws <> 0) by (intros E; destruct (H6 E); lia).
+  unfold append_eof_metablock_to_last_bytes. fields. cbn [negb].
+  unfold sub_u, mul_u8, add_u8.
+  change (1 <? 1) with false. cbv iota. change (1 - 1) with 0. change (0 * 8) with 0. change (0 <? 256) with true. cbv iota.
+  replace (0 + bo <? 256) with true by (symmetry; apply N.ltb_lt; lia). replace (0 + bo) with bo by lia.
+  replace (16 <=? bo) with false by (symmetry; apply N.leb_gt; lia).
+  fields. replace (bo + 2 <? 256) with true by (symmetry; apply N.ltb_lt; lia).
+  assert (Hmod : (bo + 2) mod 8 < 8) by (apply N.mod_lt; discriminate).
+  destruct (N.ltb_spec 8 (bo + 2)) as [Hb|Hb].
+  - fields. change (1 + 1 <? 256) with true. cbv iota.
+    eexists. split; [reflexivity|]. fields. conj; try fin.
+    constructor; fields; try fin.
+    intros q Hq. apply (NsdP_sanitize ws true false). apply H9. exact Hq.
+  - eexists. split; [reflexivity|]. fields. conj; try fin.
+    constructor; fields; try fin.
+    intros q Hq. apply (NsdP_sanitize ws true false). apply H9. exact Hq.
+Qed.
+
+Lemma finish_loop_ok : forall n s out off,
+  InvP s -> last_byte_sanitized s = false -> bytes_ok out -> off <= lenN out -> last_bytes_len s <= N.of_nat n ->
+  exists f, finish_loop n s out off = Val f /\ InvP (f_s f) /\ last_byte_sanitized (f_s f) = false /\
+    new_stream_pending (f_s f) = new_stream_pending s /\ window_size (f_s f) = window_size s /\
+    lenN (f_out f) = lenN out /\ bytes_ok (f_out f) /\ off <= f_off f /\ f_off f <= lenN out /\
+    ((f_rc f = Success /\ last_bytes_len (f_s f) = 0 /\ (last_bytes_len s = 0 -> any_bytes_emitted (f_s f) = any_bytes_emitted s)) \/
+     (f_rc f = NeedsMoreOutput /\ f_off f = lenN out)) /\
+    (off < lenN out -> last_bytes_len s <> 0 -> off < f_off f).
+Proof.
+  induction n as [|n IH]; intros s out off HI Hs Hout Hoff Hn.
+  - cbn [finish_loop]. eexists. split; [reflexivity|]. fields. conj; try fin; try (left; conj; fin).
+  - cbn [finish_loop]. destruct (N.eqb_spec (last_bytes_len s) 0) as [E0|E0].
+    { eexists. split; [reflexivity|]. fields. conj; try fin; try (left; conj; fin). }
+    destruct (N.eqb_spec off (lenN out)) as [E1|E1].
+    { eexists. split; [reflexivity|]. fields. conj; try fin; try (right; conj; fin). }
+    rewrite updN_ok by lia.
+    unfold sub_u. replace (last_bytes_len s <? 1) with false by (symmetry; apply N.ltb_ge; lia).
+    pose proof HI as [H1 H2 H3 H4 H5 H6 H7 H8 H9].
+    set (s' := set_any (set_lbs (set_len s (last_bytes_len s - 1)) (lb1 s) (lb1 s)) true).
+    assert (HI' : InvP s').
+    { subst s'. destruct s as [a0 a1 len san any bo ws pend]. fields. subst san.
+      assert (Hws : ws <> 0) by (intros E; destruct (H6 E); lia).
+      constructor; fields; fin. }
+    destruct (IH s' (setN out off (lb0 s)) (off + 1) HI') as (f & Ef & F1 & F2 & F3 & F4 & F5 & F6 & F7 & F8 & F9 & F10).
+    + subst s'. destruct s; fields. exact Hs.
+    + apply bytes_ok_setN; assumption.
+    + rewrite lenN_setN by lia. lia.
+    + subst s'. destruct s; fields. lia.
+    + exists f. split; [exact Ef|].
+      rewrite lenN_setN in * by lia.
+      assert (Ep : new_stream_pending s' = new_stream_pending s) by (subst s'; destruct s; reflexivity).
+      assert (Ew : window_size s' = window_size s) by (subst s'; destruct s; reflexivity).
+      conj; try fin.
+      destruct F9 as [(A & B & C)|(A & B)]; [left|right]; conj; fin.
+Qed.
+
+Definition finish_post (s : BroCatli) (out : list N) (off : N) (f : fret) : Prop :=
+  InvP (f_s f) /\ new_stream_pending (f_s f) = new_stream_pending s /\ window_size (f_s f) = window_size s /\
+  off <= f_off f /\ f_off f <= lenN out /\ lenN (f_out f) = lenN out /\ bytes_ok (f_out f) /\
+  (f_rc f = Success \/ f_rc f = NeedsMoreOutput) /\
+  (f_rc f = NeedsMoreOutput -> f_off f = lenN out) /\
+  (off < lenN out -> f_rc f = Success \/ off < f_off f).
+
+Theorem finish_total s out off : InvP s -> bytes_ok out -> off <= lenN out ->
+  exists f, finish s out off = Val f /\ finish_post s out off f.
+Proof.
+  intros HI Hout Hoff. unfold finish.
+  assert (Hpre : exists s1, (if last_byte_sanitized s && negb (last_bytes_len s =? 0)
+                             then append_eof_metablock_to_last_bytes s else Val s) = Val s1 /\
+                 InvP s1 /\ new_stream_pending s1 = new_stream_pending s /\ window_size s1 = window_size s /\
+                 (last_byte_sanitized s1 = false \/ last_bytes_len s1 = 0)).
+  { destruct (last_byte_sanitized s) eqn:Es; cbn [andb].
+    - destruct (N.eqb_spec (last_bytes_len s) 0) as [E0|E0]; cbn [negb].
+      + exists s. conj; try fin; try (right; exact E0).
+      + destruct (append_eof_ok s HI Es E0) as (s1 & E1 & A & B & C & D).
+        exists s1. conj; try fin; try (left; exact B).
+    - exists s. conj; try fin; try (left; exact Es). }
+  destruct Hpre as (s1 & E1 & HI1 & P1 & W1 & Hc). rewrite E1.
+  assert (Hloop : exists f, finish_loop 256 s1 out off = Val f /\ InvP (f_s f) /\
+    new_stream_pending (f_s f) = new_stream_pending s1 /\ window_size (f_s f) = window_size s1 /\
+    lenN (f_out f) = lenN out /\ bytes_ok (f_out f) /\ off <= f_off f /\ f_off f <= lenN out /\
+    (f_rc f = Success \/ (f_rc f = NeedsMoreOutput /\ f_off f = lenN out)) /\
+    (off < lenN out -> f_rc f = Success \/ off < f_off f)).
+  { destruct Hc as [Hc|Hc].
+    - pose proof HI1 as [H1 H2 H3 H4 H5 H6 H7 H8 H9].
+      destruct (finish_loop_ok 256 s1 out off HI1 Hc Hout Hoff ltac:(cbn; lia)) as (f & Ef & F1 & F2 & F3 & F4 & F5 & F6 & F7 & F8 & F9 & F10).
+      exists f. conj; try fin.
+      + destruct F9 as [(A & _)|(A & B)]; [left; exact A|right; split; assumption].
+      + intros Hlt. destruct (N.eq_dec (last_bytes_len s1) 0) as [E0|E0]; [|right; apply F10; assumption].
+        destruct F9 as [(A & _)|(A & B)]; [left; exact A|right; lia].
+    - (* nothing held back: the loop does not run *)
+      exists (mkF s1 out off Success). cbn [finish_loop]. rewrite Hc. cbn [N.eqb]. fields. conj; try fin;
+        try (left; reflexivity). }
+  destruct Hloop as (f & Ef & F1 & F3 & F4 & F5 & F6 & F7 & F8 & F9 & F10). rewrite Ef.
+  destruct F9 as [F9|[F9 F9']].
+  - rewrite F9. destruct (any_bytes_emitted (f_s f)) eqn:Ea; cbn [negb].
+    + exists f. split; [reflexivity|]. unfold finish_post. conj; try fin; try (left; exact F9).
+    + destruct (N.eqb_spec (lenN (f_out f)) (f_off f)) as [E2|E2].
+      * eexists. split; [reflexivity|]. unfold finish_post. fields. conj; try fin; try (right; reflexivity).
+      * rewrite updN_ok by lia. eexists. split; [reflexivity|]. unfold finish_post. fields.
+        assert (HI2 : InvP (set_any (f_s f) true)) by (apply InvP_set_any; exact F1).
+        assert (P2 : new_stream_pending (set_any (f_s f) true) = new_stream_pending s) by (destruct (f_s f); fields; congruence).
+        assert (W2 : window_size (set_any (f_s f) true) = window_size s) by (destruct (f_s f); fields; congruence).
+        assert (L2 : lenN (setN (f_out f) (f_off f) 59) = lenN out) by (rewrite lenN_setN by lia; exact F5).
+        assert (B2 : bytes_ok (setN (f_out f) (f_off f) 59)) by (apply bytes_ok_setN; [exact F6|lia]).
+        conj; try fin; try (left; reflexivity).
+  - rewrite F9. exists f. split; [reflexivity|]. unfold finish_post. conj; try fin; try (right; exact F9).
 Qed.
